@@ -88,3 +88,29 @@ def fs_replay(ctx, thorough):
     for m in rep["mismatches"]:
         beh = m.pop("behaviour", None)
         ctx.violation(f"{ctx.prop}/fs:{m.get('what', '?')[:60]}", "real FileSystem + watcher: " + str(m.get("what")), {"mismatch": m, "behaviour": beh})
+
+
+def pass_binding_demo(ctx):
+    """A corrupted bookkeeping trace (one `known` verdict flipped) must be rejected by Trace_Pass.tla."""
+    import os
+    if not vlib.hooks_present():
+        return
+    r, behs = worlds.generate("W3", 4, limit=300)
+    dump = os.path.join(vlib.WORK, f"pass-demo-{os.getpid()}.ndjson")
+    worlds.replay(behs, variants=["shared"], pass_dump=dump)
+    lines = [json.loads(l) for l in open(dump)]
+    os.remove(dump)
+    for e in lines:
+        if e["ev"] == "Event" and e["known"]:
+            e["known"] = False
+            break
+    else:
+        raise vlib.ToolError("binding demo: no known event in the recorded bookkeeping trace")
+    with open(dump, "w") as f:
+        for e in lines:
+            f.write(json.dumps(e) + "\n")
+    verdict, tr, detail = vlib.trace_check("Trace_Pass", "Trace_Pass.cfg", dump, name="pass-demo")
+    os.remove(dump)
+    if verdict in ("accepted", "error"):
+        raise vlib.ToolError("binding demo: a bookkeeping trace with a flipped `known` verdict was not rejected")
+    ctx.cov["binding_demos"].append({"corrupted_trace": "Event.known flipped in the reloader's bookkeeping events", "verdict": verdict})
